@@ -17,9 +17,11 @@ def harness_for(S, M, tm):
     return C.build_harness("k5-S%d-M%d-T%d" % (S, M, tm), "k5_fault.cc", flags)
 
 
-def scenario(rng, S, M, hashmode, nsweeps):
+def scenario(rng, S, M, hashmode, nsweeps, workers=0):
     """builds a table state step by step; at chosen points sweeps every fault position of a set of target operations"""
     lines = ["cfg %d" % hashmode, "new %d" % rng.choice([1, 2, 4, 8, 16]), "mlf 0" if hashmode in (0, 4) else "mlf 0.05"]
+    if workers:
+        lines.append("workers %d" % workers)       # helper threads for migration batches and rebuilds
     keys = list(range(1, 400))
     rng.shuffle(keys)
     present = []
@@ -140,6 +142,10 @@ def explore(tier, seed):
         for hm in (0, 2, 3, 4, 5):
             for _ in range(nscen if hm in (0, 4) else 1):
                 jobs.append((c, hm, scenario(random.Random(rng.getrandbits(40)), c[0], c[1], hm, 3 if tier == "quick" else 6)))
+        # helper threads: the same sweeps with 1..3 workers (fault positions then also lie inside worker threads)
+        for w in ((2, 3) if tier == "quick" else (1, 2, 3, 5)):
+            for hm in (0, 4):
+                jobs.append((c, hm, scenario(random.Random(rng.getrandbits(40)), c[0], c[1], hm, 3 if tier == "quick" else 6, workers=w)))
 
     def work(j):
         c, hm, lines = j
